@@ -402,9 +402,7 @@ Proof.
   unfold set_parents. revert l. induction cs as [|c cs IH]; intros l; cbn [fold_left memb existsb]; [reflexivity|].
   rewrite IH. fold (memb k cs).
   destruct (Nat.eqb_spec c new) as [->|Hcn].
-  - destruct (Nat.eqb_spec k new) as [->|Hkn]; cbn.
-    + rewrite !andb_false_r. reflexivity.
-    + reflexivity.
+  - destruct (Nat.eqb k new); cbn; rewrite ?andb_false_r; reflexivity.
   - rewrite set_parent_of_aget. destruct (Nat.eqb_spec k c) as [->|Hkc]; cbn.
     + destruct (Nat.eqb_spec c new); [congruence|]. cbn. rewrite andb_true_r.
       destruct (memb c cs); [|reflexivity]. destruct (aget c l); reflexivity.
@@ -474,7 +472,7 @@ Proof.
             let s2 := set_root (upd_nodes s (fun _ => if del then adel old l2 else l2)) r in
             (forall k, aget k (nodes s2) = if del && Nat.eqb k old then None else option_map (rnin_fix new old on k) (aget k (nodes s))) /\
             akeys (nodes s2) = (if del then remove_first old (akeys (nodes s)) else akeys (nodes s))).
-  { intros l2 r K2 G2. cbn. destruct del; cbn.
+  { intros l2 r K2 G2. cbn [nodes set_root upd_nodes]. destruct del; cbn [andb].
     - split.
       + intros k. rewrite aget_adel by (rewrite K2; exact Hnd). destruct (Nat.eqb k old); [reflexivity|apply G2].
       + rewrite akeys_adel, K2. reflexivity.
@@ -513,4 +511,631 @@ Proof.
       destruct (memb k (children on) && negb (Nat.eqb k new)); destruct (aget k (nodes s)); reflexivity. }
     split; [reflexivity|]. split; [exact F1|]. split; [exact F2|]. split; [reflexivity|]. split; [exact I|].
     cbn. repeat split.
+Qed.
+
+(* ================================================================================================ *)
+(* ---- relabelling the identifiers of a store by a function injective on its keys -------------- *)
+(* ================================================================================================ *)
+Definition ren_node (f : id -> id) (n : node) : node :=
+  {| parent := option_map f (parent n); children := map f (children n); perm := perm n; shape := shape n |}.
+
+Lemma ren_node_nparents f n : nparents (ren_node f n) = nparents n.
+Proof. unfold nparents. cbn. destruct (parent n); reflexivity. Qed.
+
+Lemma ren_node_nvirt f n : nvirt (ren_node f n) = nvirt n.
+Proof. unfold nvirt. rewrite ren_node_nparents. cbn. rewrite map_length. reflexivity. Qed.
+
+Lemma own_of_ext2 a ta b tb :
+  nparents a = nparents b -> nvirt a = nvirt b -> laxes a ta = laxes b tb -> own_of a ta = own_of b tb.
+Proof. intros Hp Hc Hl. unfold own_of. rewrite Hl, Hp, Hc. reflexivity. Qed.
+
+Lemma open_of_ext2 a ta b tb : nvirt a = nvirt b -> laxes a ta = laxes b tb -> open_of a ta = open_of b tb.
+Proof. intros Hc Hl. unfold open_of. rewrite Hl, Hc. reflexivity. Qed.
+
+Lemma neighbour_index_ren f pn k :
+  (forall y, In y (neighbouring_nodes pn) -> f y = f k -> y = k) ->
+  neighbour_index (ren_node f pn) (f k) = neighbour_index pn k.
+Proof.
+  unfold neighbour_index, neighbouring_nodes. cbn [ren_node parent children].
+  destruct (parent pn) as [q|]; cbn [option_map]; intros H.
+  - destruct (Nat.eqb_spec k q) as [->|Hne].
+    + rewrite Nat.eqb_refl. reflexivity.
+    + destruct (Nat.eqb_spec (f k) (f q)) as [E|_].
+      * exfalso. apply Hne. symmetry. apply H; [left; reflexivity|congruence].
+      * rewrite index_of_map_inj; [reflexivity|]. intros y Hy. apply H. right. exact Hy.
+  - apply index_of_map_inj. exact H.
+Qed.
+
+Lemma wf_neighbours_keys s k nk x :
+  wf s -> aget k (nodes s) = Some nk -> In x (neighbouring_nodes nk) -> In x (akeys (nodes s)).
+Proof.
+  intros H E Hx. pose proof (wf_node s H k nk E) as Hn. unfold neighbouring_nodes in Hx.
+  assert (Hc : In x (children nk) -> In x (akeys (nodes s))).
+  { intros Hc. destruct (ni_ch _ _ _ Hn x Hc) as (cn & Ec & _). eapply aget_Some_keys; eauto. }
+  destruct (parent nk) as [p|] eqn:Ep; [|auto]. destruct Hx as [<-|Hx]; [|auto].
+  destruct (ni_par _ _ _ Hn p Ep) as (pn & i & Epn & _). eapply aget_Some_keys; eauto.
+Qed.
+
+Lemma NoDup_map_inj_in {A B} (f : A -> B) l :
+  (forall a b, In a l -> In b l -> f a = f b -> a = b) -> NoDup l -> NoDup (map f l).
+Proof.
+  induction l as [|x t IH]; cbn; intros Hinj Hnd; [constructor|]. inversion Hnd as [|? ? Hni Hnd']; subst. constructor.
+  - intros Hin. apply in_map_iff in Hin. destruct Hin as (y & Ey & Hy).
+    assert (y = x) by (apply Hinj; auto). subst. contradiction.
+  - apply IH; [|exact Hnd']. intros a b Ha Hb. apply Hinj; right; assumption.
+Qed.
+
+Lemma find_inj (f : id -> id) keys k :
+  (forall a b, In a keys -> In b keys -> f a = f b -> a = b) -> In k keys ->
+  find (fun x => Nat.eqb (f x) (f k)) keys = Some k.
+Proof.
+  intros Hinj Hk. destruct (find (fun x => Nat.eqb (f x) (f k)) keys) as [x|] eqn:E.
+  - apply find_some in E. destruct E as [Hx E]. apply Nat.eqb_eq in E. f_equal. apply Hinj; assumption.
+  - exfalso. pose proof (find_none _ _ E k Hk) as Hf. cbn in Hf. rewrite Nat.eqb_refl in Hf. discriminate.
+Qed.
+
+Theorem wf_relabel (f : id -> id) s s' :
+  wf s ->
+  (forall a b, In a (akeys (nodes s)) -> In b (akeys (nodes s)) -> f a = f b -> a = b) ->
+  NoDup (akeys (nodes s')) -> NoDup (akeys (tensors s')) ->
+  (forall k nk, aget k (nodes s) = Some nk -> aget (f k) (nodes s') = Some (ren_node f nk)) ->
+  (forall k', In k' (akeys (nodes s')) -> exists k, k' = f k /\ In k (akeys (nodes s))) ->
+  (forall k, In k (akeys (nodes s)) -> aget (f k) (tensors s') = aget k (tensors s)) ->
+  (forall k', In k' (akeys (tensors s')) -> exists k, k' = f k /\ In k (akeys (nodes s))) ->
+  root s' = option_map f (root s) ->
+  dims s' = dims s -> next_wire s' = next_wire s ->
+  wf s'.
+Proof.
+  intros H Hinj Hnd Htnd Hn1 Hn2 Ht1 Ht2 Hroot Hdims Hnw.
+  assert (N2 : forall k' n', aget k' (nodes s') = Some n' ->
+            exists k nk, k' = f k /\ aget k (nodes s) = Some nk /\ n' = ren_node f nk).
+  { intros k' n' E. destruct (Hn2 k' (aget_Some_keys _ _ _ E)) as (k & -> & Hk).
+    apply keys_aget in Hk. destruct Hk as [nk Ek]. exists k, nk. split; [reflexivity|]. split; [exact Ek|].
+    rewrite (Hn1 k nk Ek) in E. congruence. }
+  assert (T : forall k nk, aget k (nodes s) = Some nk -> tens s' (f k) = tens s k).
+  { intros k nk E. unfold tens. rewrite Ht1 by (eapply aget_Some_keys; eauto). reflexivity. }
+  assert (L : forall k nk, aget k (nodes s) = Some nk -> lax s' (f k) (ren_node f nk) = lax s k nk).
+  { intros k nk E. unfold lax. rewrite (T k nk E). reflexivity. }
+  assert (O : forall k nk, aget k (nodes s) = Some nk -> own_of (ren_node f nk) (tens s' (f k)) = own_of nk (tens s k)).
+  { intros k nk E. apply own_of_ext2; [apply ren_node_nparents|apply ren_node_nvirt|apply (L k nk E)]. }
+  assert (W : forall w, wdim s' w = wdim s w) by (intros w; unfold wdim; rewrite Hdims; reflexivity).
+  assert (Inj : forall k nk x, aget k (nodes s) = Some nk -> In x (akeys (nodes s)) ->
+            forall y, In y (neighbouring_nodes nk) -> f y = f x -> y = x).
+  { intros k nk x E Hx y Hy. apply Hinj; [|exact Hx]. eapply wf_neighbours_keys; eauto. }
+  constructor.
+  - exact Hnd.
+  - exact Htnd.
+  - intros k' Hk'. apply amem_true in Hk'. destruct (Ht2 k' Hk') as (k & -> & Hk).
+    apply keys_aget in Hk. destruct Hk as [nk Ek]. apply amem_aget. rewrite (Hn1 k nk Ek). eauto.
+  - destruct (wf_root s H) as (r & rn & Hr & Er & Hpr & Huniq).
+    exists (f r), (ren_node f rn). split; [rewrite Hroot, Hr; reflexivity|]. split; [apply Hn1; exact Er|].
+    split; [cbn; rewrite Hpr; reflexivity|].
+    intros k' n' E Hp. destruct (N2 k' n' E) as (k & nk & -> & Ek & ->). f_equal. apply (Huniq k nk Ek).
+    cbn in Hp. destruct (parent nk); [discriminate|reflexivity].
+  - intros k' n' E. destruct (N2 k' n' E) as (k & nk & -> & Ek & ->).
+    pose proof (wf_node s H k nk Ek) as Hn. constructor.
+    + apply amem_aget. rewrite Ht1 by (eapply aget_Some_keys; eauto). apply amem_aget. apply (ni_t _ _ _ Hn).
+    + cbn. apply (ni_perm _ _ _ Hn).
+    + cbn [ren_node shape]. rewrite (T k nk Ek). rewrite (ni_shape _ _ _ Hn). apply map_ext. intros w. symmetry. apply W.
+    + rewrite ren_node_nvirt. apply (ni_virt _ _ _ Hn).
+    + cbn. apply NoDup_map_inj_in; [|apply (ni_chnd _ _ _ Hn)].
+      intros a b Ha Hb. apply Hinj; (eapply wf_neighbours_keys; [exact H|exact Ek|]); unfold neighbouring_nodes;
+        destruct (parent nk); [right|idtac|right|idtac]; assumption.
+    + intros c' Hc'. cbn in Hc'. apply in_map_iff in Hc'. destruct Hc' as (c & <- & Hc).
+      destruct (ni_ch _ _ _ Hn c Hc) as (cn & Ec & Epc). exists (ren_node f cn). split; [apply Hn1; exact Ec|].
+      cbn. rewrite Epc. reflexivity.
+    + intros p' Hp'. cbn in Hp'. destruct (parent nk) as [p|] eqn:Ep; [|discriminate]. injection Hp' as <-.
+      destruct (ni_par _ _ _ Hn p Ep) as (pn & i & Epn & Hin & Hni & Hw).
+      exists (ren_node f pn), i. split; [apply Hn1; exact Epn|]. split; [cbn; apply in_map; exact Hin|]. split.
+      * rewrite neighbour_index_ren; [exact Hni|]. apply (Inj p pn k Epn). eapply aget_Some_keys; eauto.
+      * rewrite (L k nk Ek), (L p pn Epn). exact Hw.
+  - intros k' n' E. destruct (N2 k' n' E) as (k & nk & -> & Ek & ->). rewrite (O k nk Ek). apply (wf_own1 s H k nk Ek).
+  - intros k1' n1' k2' n2' w E1 E2. destruct (N2 k1' n1' E1) as (k1 & m1 & -> & G1 & ->).
+    destruct (N2 k2' n2' E2) as (k2 & m2 & -> & G2 & ->). rewrite (O k1 m1 G1), (O k2 m2 G2).
+    intros H1 H2. f_equal. apply (wf_own2 s H k1 m1 k2 m2 w G1 G2 H1 H2).
+  - intros k' t w E Hw. rewrite Hnw. destruct (Ht2 k' (aget_Some_keys _ _ _ E)) as (k & -> & Hk).
+    rewrite (Ht1 k Hk) in E. apply (wf_wires s H k t w E Hw).
+  - rewrite Hdims, Hnw. apply (wf_dims s H).
+  - destruct (wf_acyc s H) as [d Hd].
+    exists (fun k' => match find (fun x => Nat.eqb (f x) k') (akeys (nodes s)) with Some k => d k | None => 0 end).
+    intros c' cn' p' E Hp'. destruct (N2 c' cn' E) as (c & cn & -> & Ec & ->).
+    cbn in Hp'. destruct (parent cn) as [p|] eqn:Ep; [|discriminate]. injection Hp' as <-.
+    assert (Hpk : In p (akeys (nodes s))).
+    { eapply wf_neighbours_keys; [exact H|exact Ec|]. unfold neighbouring_nodes. rewrite Ep. left. reflexivity. }
+    rewrite (find_inj f _ p Hinj Hpk). rewrite (find_inj f _ c Hinj (aget_Some_keys _ _ _ Ec)).
+    apply (Hd c cn p Ec Ep).
+Qed.
+
+Record relabels (f : id -> id) (s s' : store) : Prop := {
+  rl_inj : forall a b, In a (akeys (nodes s)) -> In b (akeys (nodes s)) -> f a = f b -> a = b;
+  rl_nd : NoDup (akeys (nodes s'));
+  rl_tnd : NoDup (akeys (tensors s'));
+  rl_n1 : forall k nk, aget k (nodes s) = Some nk -> aget (f k) (nodes s') = Some (ren_node f nk);
+  rl_n2 : forall k', In k' (akeys (nodes s')) -> exists k, k' = f k /\ In k (akeys (nodes s));
+  rl_t1 : forall k, In k (akeys (nodes s)) -> aget (f k) (tensors s') = aget k (tensors s);
+  rl_t2 : forall k', In k' (akeys (tensors s')) -> exists k, k' = f k /\ In k (akeys (nodes s));
+  rl_root : root s' = option_map f (root s);
+  rl_dims : dims s' = dims s;
+  rl_nw : next_wire s' = next_wire s
+}.
+
+Theorem relabels_wf f s s' : wf s -> relabels f s s' -> wf s'.
+Proof. intros H [H1 H2 H3 H4 H5 H6 H7 H8 H9 H10]. eapply wf_relabel; eauto. Qed.
+
+Lemma In_remove_first x y l : NoDup l -> (In x (remove_first y l) <-> In x l /\ x <> y).
+Proof.
+  induction l as [|z t IH]; cbn; intros Hnd; [tauto|]. inversion Hnd as [|? ? Hni Hnd']; subst.
+  destruct (Nat.eqb_spec y z) as [->|Hne].
+  - split.
+    + intros Hx. split; [right; exact Hx|]. intros ->. contradiction.
+    + intros [[->|Hx] Hxz]; [congruence|exact Hx].
+  - cbn. rewrite (IH Hnd'). split.
+    + intros [->|[Hx Hxy]]; [split; [left; reflexivity|congruence]|split; [right; exact Hx|exact Hxy]].
+    + intros [[->|Hx] Hxy]; [left; reflexivity|right; split; assumption].
+Qed.
+
+(* flat_map over two association lists related by a relabelling of the keys *)
+Lemma flat_map_relabel_perm {V V' W} (f : nat -> nat) (g : nat * V -> list W) (g' : nat * V' -> list W) l l' :
+  NoDup (akeys l) -> NoDup (akeys l') ->
+  (forall a b, In a (akeys l) -> In b (akeys l) -> f a = f b -> a = b) ->
+  (forall k v, aget k l = Some v -> exists v', aget (f k) l' = Some v' /\ Permutation (g' (f k, v')) (g (k, v))) ->
+  (forall k', In k' (akeys l') -> exists k, k' = f k /\ In k (akeys l)) ->
+  Permutation (flat_map g' l') (flat_map g l).
+Proof.
+  revert l'. induction l as [|[k v] t IH]; intros l' Hnd Hnd' Hinj H1 H2.
+  - destruct l' as [|[k' v'] t']; [reflexivity|]. destruct (H2 k' (or_introl eq_refl)) as (k & _ & []).
+  - inversion Hnd as [|? ? Hni Hndt]; subst.
+    destruct (H1 k v) as (v' & E' & Hp); [cbn; rewrite Nat.eqb_refl; reflexivity|].
+    rewrite (flat_map_adel_perm g' (f k) v' l' E'). cbn [flat_map]. apply Permutation_app; [exact Hp|].
+    apply IH.
+    + exact Hndt.
+    + apply NoDup_akeys_adel. exact Hnd'.
+    + intros a b Ha Hb. apply Hinj; right; assumption.
+    + intros k2 v2 E2.
+      assert (Hk2 : In k2 (akeys t)) by (eapply aget_Some_keys; eauto).
+      assert (Hne : k2 <> k) by (intros ->; contradiction).
+      destruct (H1 k2 v2) as (v2' & E2' & Hp2).
+      { cbn. destruct (Nat.eqb_spec k2 k); [congruence|exact E2]. }
+      exists v2'. split; [|exact Hp2]. rewrite aget_adel_other; [exact E2'|].
+      intros Ef. apply Hne. apply Hinj; [right; exact Hk2|left; reflexivity|exact Ef].
+    + intros k' Hk'. rewrite akeys_adel in Hk'. apply (In_remove_first _ _ _ Hnd') in Hk'. destruct Hk' as [Hk' Hne].
+      destruct (H2 k' Hk') as (k2 & -> & Hk2). cbn in Hk2. destruct Hk2 as [<-|Hk2]; [congruence|]. exists k2. split; [reflexivity|exact Hk2].
+Qed.
+
+Theorem relabels_lax f s s' k nk :
+  wf s -> relabels f s s' -> aget k (nodes s) = Some nk ->
+  aget (f k) (nodes s') = Some (ren_node f nk) /\ tens s' (f k) = tens s k /\ lax s' (f k) (ren_node f nk) = lax s k nk.
+Proof.
+  intros H R E. split; [apply (rl_n1 _ _ _ R); exact E|].
+  assert (T : tens s' (f k) = tens s k).
+  { unfold tens. rewrite (rl_t1 _ _ _ R) by (eapply aget_Some_keys; eauto). reflexivity. }
+  split; [exact T|]. unfold lax. rewrite T. reflexivity.
+Qed.
+
+Theorem relabels_open_wires f s s' : wf s -> relabels f s s' -> Permutation (open_wires s') (open_wires s).
+Proof.
+  intros H R. unfold open_wires. apply (flat_map_relabel_perm f).
+  - apply (wf_nd s H).
+  - apply (rl_nd _ _ _ R).
+  - apply (rl_inj _ _ _ R).
+  - intros k nk E. destruct (relabels_lax f s s' k nk H R E) as (E' & T & L). exists (ren_node f nk). split; [exact E'|].
+    unfold node_open. cbn [fst snd]. rewrite (open_of_ext2 (ren_node f nk) (tens s' (f k)) nk (tens s k)); [reflexivity| |].
+    + apply ren_node_nvirt.
+    + exact L.
+  - apply (rl_n2 _ _ _ R).
+Qed.
+
+Lemma relabels_tensors_perm {W} f s s' (g : sarr -> list W) :
+  wf s -> relabels f s s' ->
+  Permutation (flat_map (fun kt => g (snd kt)) (tensors s')) (flat_map (fun kt => g (snd kt)) (tensors s)).
+Proof.
+  intros H R. apply (flat_map_relabel_perm f).
+  - apply (wf_tnd s H).
+  - apply (rl_tnd _ _ _ R).
+  - intros a b Ha Hb. apply (rl_inj _ _ _ R); apply (wf_keys_iff s _ H); assumption.
+  - intros k t E. exists t. split; [|reflexivity]. rewrite (rl_t1 _ _ _ R); [exact E|].
+    apply (wf_keys_iff s _ H). eapply aget_Some_keys; eauto.
+  - intros k' Hk'. destruct (rl_t2 _ _ _ R k' Hk') as (k & -> & Hk). exists k. split; [reflexivity|].
+    apply (wf_keys_iff s _ H). exact Hk.
+Qed.
+
+Theorem relabels_total_atoms f s s' : wf s -> relabels f s s' -> Permutation (total_atoms s') (total_atoms s).
+Proof. intros H R. apply (relabels_tensors_perm f s s' atoms H R). Qed.
+
+Theorem relabels_total_ends f s s' : wf s -> relabels f s s' -> Permutation (total_ends s') (total_ends s).
+Proof. intros H R. apply (relabels_tensors_perm f s s' sarr_ends H R). Qed.
+
+(* ================================================================================================ *)
+(* ---- 2. rename (change_node_identifier) ------------------------------------------------------- *)
+(* ================================================================================================ *)
+Lemma node_ext a b : parent a = parent b -> children a = children b -> perm a = perm b -> shape a = shape b -> a = b.
+Proof. destruct a, b; cbn; intros -> -> -> ->; reflexivity. Qed.
+
+Lemma ren_node_id f n : (forall x, f x = x) -> ren_node f n = n.
+Proof.
+  intros Hf. apply node_ext; cbn; try reflexivity.
+  - destruct (parent n); cbn; [rewrite Hf|]; reflexivity.
+  - rewrite (map_ext f (fun x => x) Hf). apply map_id.
+Qed.
+
+Lemma wf_not_self_child s k nk : wf s -> aget k (nodes s) = Some nk -> ~ In k (children nk).
+Proof.
+  intros H E Hin. destruct (ni_ch _ _ _ (wf_node s H k nk E) k Hin) as (cn & Ec & Ep).
+  apply (wf_not_self_parent s k cn H Ec Ep).
+Qed.
+
+Lemma ren1_inj old new keys a b :
+  new = old \/ ~ In new keys -> In a keys -> In b keys -> ren1 old new a = ren1 old new b -> a = b.
+Proof.
+  intros Hnew Ha Hb. unfold ren1. destruct (Nat.eqb_spec a old) as [->|Ha']; destruct (Nat.eqb_spec b old) as [->|Hb']; auto.
+  - intros ->. destruct Hnew as [->|Hn]; [congruence|contradiction].
+  - intros <-. destruct Hnew as [->|Hn]; [congruence|contradiction].
+Qed.
+
+Section MoveEnd.
+  Context {V : Type}.
+  Implicit Types (l : list (nat * V)) (v : V).
+
+  Lemma aget_new_adel old new l : NoDup (akeys l) -> new = old \/ aget new l = None -> aget new (adel old l) = None.
+  Proof.
+    intros Hnd [->|Hn]; [apply aget_adel_same; exact Hnd|].
+    destruct (Nat.eq_dec new old) as [->|Hne]; [apply aget_adel_same; exact Hnd|]. rewrite aget_adel_other by exact Hne. exact Hn.
+  Qed.
+
+  Lemma aget_move_end old new v l k :
+    NoDup (akeys l) -> aget old l = Some v -> new = old \/ aget new l = None -> In k (akeys l) ->
+    aget (ren1 old new k) (adel old l ++ [(new, v)]) = aget k l.
+  Proof.
+    intros Hnd Eo Hnew Hk. rewrite aget_app. unfold ren1. destruct (Nat.eqb_spec k old) as [->|Hne].
+    - rewrite (aget_new_adel old new l Hnd Hnew). cbn. rewrite Nat.eqb_refl. symmetry. exact Eo.
+    - rewrite aget_adel_other by exact Hne. apply keys_aget in Hk. destruct Hk as [u ->]. reflexivity.
+  Qed.
+
+  Lemma NoDup_move_end old new v l :
+    NoDup (akeys l) -> new = old \/ aget new l = None -> NoDup (akeys (adel old l ++ [(new, v)])).
+  Proof.
+    intros Hnd Hnew. apply NoDup_akeys_snoc; [apply NoDup_akeys_adel; exact Hnd|apply aget_new_adel; assumption].
+  Qed.
+
+  Lemma keys_move_end old new v l k' :
+    NoDup (akeys l) -> In old (akeys l) -> In k' (akeys (adel old l ++ [(new, v)])) ->
+    exists k, k' = ren1 old new k /\ In k (akeys l).
+  Proof.
+    intros Hnd Ho Hk'. rewrite akeys_app, akeys_adel in Hk'. apply in_app_or in Hk'. destruct Hk' as [Hk'|Hk'].
+    - apply (In_remove_first _ _ _ Hnd) in Hk'. destruct Hk' as [Hk' Hne]. exists k'. split; [|exact Hk'].
+      symmetry. apply ren1_other. exact Hne.
+    - cbn in Hk'. destruct Hk' as [<-|[]]. exists old. split; [|exact Ho]. symmetry. apply ren1_same.
+  Qed.
+End MoveEnd.
+
+Lemma rename_inv s new old s' :
+  rename s new old = Some s' ->
+  exists s0 nd t, access s old = Some (s0, nd, t) /\
+    ((old = new /\ s' = upd_tensors s0 (fun l => adel old l ++ [(new, t)])) \/
+     (old <> new /\ amem new (nodes s) = false /\
+      exists s2, replace_node_in_neighbours (upd_tensors s0 (fun l => adel old l ++ [(new, t)])) new old false = Some s2 /\
+                 s' = upd_nodes s2 (fun l => adel old l ++ [(new, nd)]))).
+Proof.
+  unfold rename. destruct (access s old) as [[[s0 nd] t]|]; [|discriminate].
+  intros Hr. exists s0, nd, t. split; [reflexivity|].
+  destruct (Nat.eqb_spec old new) as [->|Hne].
+  - left. injection Hr as <-. split; reflexivity.
+  - right. destruct (amem new (nodes s)); [discriminate|].
+    destruct (replace_node_in_neighbours _ new old false) as [s2|] eqn:E; [|discriminate].
+    injection Hr as <-. split; [exact Hne|]. split; [reflexivity|]. exists s2. split; reflexivity.
+Qed.
+
+(* under the invariant, with a fresh new identifier, replace_node_in_neighbours is the pointwise renaming *)
+Lemma rnin_fix_ren s old new nd k nk :
+  wf s -> aget old (nodes s) = Some nd -> aget k (nodes s) = Some nk -> k <> new ->
+  rnin_fix new old nd k nk = ren_node (ren1 old new) nk.
+Proof.
+  intros H Eo Ek Hkn. pose proof (wf_node s H k nk Ek) as Hn. pose proof (wf_node s H old nd Eo) as Ho.
+  assert (Hb : negb (Nat.eqb k new) = true) by (destruct (Nat.eqb_spec k new); [congruence|reflexivity]).
+  apply node_ext.
+  - rewrite rnin_fix_parent, Hb, andb_true_r. cbn. destruct (memb k (children nd)) eqn:Hm.
+    + apply memb_In in Hm. destruct (ni_ch _ _ _ Ho k Hm) as (cn & Ec & Ep). rewrite Ek in Ec. injection Ec as <-.
+      rewrite Ep. cbn. rewrite ren1_same. reflexivity.
+    + apply memb_false in Hm. destruct (parent nk) as [q|] eqn:Eq; [|reflexivity]. cbn. rewrite ren1_other; [reflexivity|].
+      intros ->. destruct (ni_par _ _ _ Hn old Eq) as (pn & i & Epn & Hin & _). rewrite Eo in Epn. injection Epn as <-. contradiction.
+  - rewrite rnin_fix_children, Hb, andb_true_r. cbn.
+    destruct (match parent nd with Some p => Nat.eqb k p | None => false end) eqn:Hp.
+    + apply replace_first_map. apply (ni_chnd _ _ _ Hn).
+    + symmetry. apply map_ren1_not_in. intros Hin. destruct (ni_ch _ _ _ Hn old Hin) as (cn & Ec & Ep).
+      rewrite Eo in Ec. injection Ec as <-. rewrite Ep, Nat.eqb_refl in Hp. discriminate.
+  - cbn. apply rnin_fix_perm.
+  - cbn. apply rnin_fix_perm.
+Qed.
+
+Theorem rename_relabels s new old s' :
+  wf s -> rename s new old = Some s' ->
+  exists s0 nd t, access s old = Some (s0, nd, t) /\ wf s0 /\ relabels (ren1 old new) s0 s'.
+Proof.
+  intros H Hr. destruct (rename_inv _ _ _ _ Hr) as (s0 & nd & t & Ha & Hcases).
+  exists s0, nd, t. split; [exact Ha|].
+  pose proof (access_preserves_wf _ _ _ _ _ H Ha) as H0. split; [exact H0|].
+  destruct (access_keys _ _ _ _ _ Ha) as (Kn & Kt & _).
+  destruct (access_inv _ _ _ _ _ Ha) as (ndo & to & Endo & Eto & _ & _ & Es0).
+  assert (Eo : aget old (nodes s0) = Some nd) by (rewrite Es0; cbn; apply aget_aset_same).
+  assert (Et : aget old (tensors s0) = Some t) by (rewrite Es0; cbn; apply aget_aset_same).
+  assert (Hto : In old (akeys (tensors s0))) by (eapply aget_Some_keys; eauto).
+  assert (Hno : In old (akeys (nodes s0))) by (eapply aget_Some_keys; eauto).
+  (* the tensor dictionary is the same in both cases *)
+  assert (TT : new = old \/ aget new (nodes s0) = None ->
+          let ts' := adel old (tensors s0) ++ [(new, t)] in
+          NoDup (akeys ts') /\
+          (forall k, In k (akeys (nodes s0)) -> aget (ren1 old new k) ts' = aget k (tensors s0)) /\
+          (forall k', In k' (akeys ts') -> exists k, k' = ren1 old new k /\ In k (akeys (nodes s0)))).
+  { intros Hnew ts'.
+    assert (Hnew' : new = old \/ aget new (tensors s0) = None).
+    { destruct Hnew as [->|Hn]; [left; reflexivity|right]. apply aget_None. intros Hin. apply (wf_keys_iff s0 _ H0) in Hin.
+      apply aget_None in Hn. contradiction. }
+    split; [apply NoDup_move_end; [apply (wf_tnd s0 H0)|exact Hnew']|]. split.
+    - intros k Hk. apply aget_move_end; auto; [apply (wf_tnd s0 H0)|apply (wf_keys_iff s0 _ H0); exact Hk].
+    - intros k' Hk'. destruct (keys_move_end old new t (tensors s0) k' (wf_tnd s0 H0) Hto Hk') as (k & -> & Hk).
+      exists k. split; [reflexivity|apply (wf_keys_iff s0 _ H0); exact Hk]. }
+  destruct Hcases as [[<- ->]|(Hne & Hm & s2 & Hrn & ->)].
+  - (* old = new: only the tensor dictionary is reordered *)
+    destruct (TT (or_introl eq_refl)) as (T1 & T2 & T3).
+    constructor; cbn [nodes tensors root dims next_wire upd_tensors].
+    + intros a b Ha' Hb'. rewrite !ren1_id. auto.
+    + apply (wf_nd s0 H0).
+    + exact T1.
+    + intros k nk E. rewrite ren1_id, ren_node_id by apply ren1_id. exact E.
+    + intros k' Hk'. exists k'. split; [symmetry; apply ren1_id|exact Hk'].
+    + exact T2.
+    + exact T3.
+    + destruct (root s0); cbn; [rewrite ren1_id|]; reflexivity.
+    + reflexivity.
+    + reflexivity.
+  - (* old <> new, new fresh *)
+    assert (Hn0 : aget new (nodes s0) = None).
+    { apply aget_None. rewrite Kn. apply aget_None. apply amem_false. exact Hm. }
+    destruct (TT (or_intror Hn0)) as (T1 & T2 & T3).
+    set (s1 := upd_tensors s0 (fun l => adel old l ++ [(new, t)])) in *.
+    destruct (replace_node_in_neighbours_spec s1 new old false s2 (wf_nd s0 H0) (fun E => Hne (eq_sym E)) Hrn)
+      as (on & Eon & G & K & R & _ & Ets & Edims & Enw & _).
+    cbn [nodes s1 upd_tensors] in Eon, G, K. rewrite Eo in Eon. injection Eon as <-.
+    cbn [andb] in G.
+    assert (Hnd2 : NoDup (akeys (nodes s2))) by (rewrite K; apply (wf_nd s0 H0)).
+    assert (Hnew2 : new = old \/ aget new (nodes s2) = None) by (right; rewrite G, Hn0; reflexivity).
+    assert (Eo2 : aget old (nodes s2) = Some nd).
+    { rewrite G, Eo. cbn. f_equal. rewrite (rnin_fix_ren s0 old new nd old nd H0 Eo Eo (fun E => Hne E)).
+      apply node_ext; cbn; try reflexivity.
+      - destruct (parent nd) as [q|] eqn:Eq; [|reflexivity]. cbn. rewrite ren1_other; [reflexivity|].
+        intros ->. apply (wf_not_self_parent s0 old nd H0 Eo Eq).
+      - apply map_ren1_not_in. apply (wf_not_self_child s0 old nd H0 Eo). }
+    constructor; cbn [nodes tensors root dims next_wire upd_nodes].
+    + intros a b. apply ren1_inj. right. apply aget_None. exact Hn0.
+    + apply NoDup_move_end; assumption.
+    + rewrite Ets. exact T1.
+    + intros k nk E. transitivity (aget k (nodes s2)).
+      * apply (aget_move_end old new nd (nodes s2) k Hnd2 Eo2 Hnew2). rewrite K. eapply aget_Some_keys; eauto.
+      * rewrite G, E. cbn. f_equal. apply (rnin_fix_ren s0 old new nd k nk H0 Eo E). intros ->. congruence.
+    + intros k' Hk'. rewrite <- K. apply (keys_move_end old new nd (nodes s2) k' Hnd2); [rewrite K; exact Hno|exact Hk'].
+    + rewrite Ets. exact T2.
+    + rewrite Ets. exact T3.
+    + rewrite R. cbn [root s1 upd_tensors]. destruct (wf_root s0 H0) as (r & rn & Hroot & Er & Hpr & Huniq). rewrite Hroot. cbn.
+      destruct (parent nd) as [q|] eqn:Eq.
+      * rewrite ren1_other; [reflexivity|]. intros ->. rewrite Eo in Er. injection Er as <-. congruence.
+      * rewrite (Huniq old nd Eo Eq). rewrite ren1_same. reflexivity.
+    + rewrite Edims. reflexivity.
+    + rewrite Enw. reflexivity.
+Qed.
+
+Theorem rename_preserves_wf s new old s' : wf s -> rename s new old = Some s' -> wf s'.
+Proof.
+  intros H Hr. destruct (rename_relabels _ _ _ _ H Hr) as (s0 & nd & t & Ha & H0 & R).
+  apply (relabels_wf _ s0 s' H0 R).
+Qed.
+
+Theorem rename_preserves_wfb s new old s' : wfb s = true -> rename s new old = Some s' -> wfb s' = true.
+Proof. intros H Hr. apply wfb_iff. eapply rename_preserves_wf; [apply wfb_iff; exact H|exact Hr]. Qed.
+
+Theorem rename_total_atoms s new old s' :
+  wf s -> rename s new old = Some s' -> Permutation (total_atoms s') (total_atoms s).
+Proof.
+  intros H Hr. destruct (rename_relabels _ _ _ _ H Hr) as (s0 & nd & t & Ha & H0 & R).
+  rewrite (relabels_total_atoms _ s0 s' H0 R). rewrite (access_total_atoms _ _ _ _ _ H Ha). reflexivity.
+Qed.
+
+Theorem rename_total_ends s new old s' :
+  wf s -> rename s new old = Some s' -> Permutation (total_ends s') (total_ends s).
+Proof.
+  intros H Hr. destruct (rename_relabels _ _ _ _ H Hr) as (s0 & nd & t & Ha & H0 & R).
+  rewrite (relabels_total_ends _ s0 s' H0 R). apply (access_total_ends _ _ _ _ _ H Ha).
+Qed.
+
+(* the renamed node moves to the end of the node dictionary *)
+Theorem rename_open_wires s new old s' :
+  wf s -> rename s new old = Some s' -> Permutation (open_wires s') (open_wires s).
+Proof.
+  intros H Hr. destruct (rename_relabels _ _ _ _ H Hr) as (s0 & nd & t & Ha & H0 & R).
+  rewrite (relabels_open_wires _ s0 s' H0 R). rewrite (access_open_wires _ _ _ _ _ H Ha). reflexivity.
+Qed.
+
+(* every node k is found under (ren1 old new k) with parent and children renamed pointwise and the
+   same logical axes *)
+Theorem rename_lax s new old s' k nk :
+  wf s -> rename s new old = Some s' -> aget k (nodes s) = Some nk ->
+  exists nk', aget (ren1 old new k) (nodes s') = Some nk' /\
+              parent nk' = option_map (ren1 old new) (parent nk) /\
+              children nk' = map (ren1 old new) (children nk) /\
+              lax s' (ren1 old new k) nk' = lax s k nk.
+Proof.
+  intros H Hr E. destruct (rename_relabels _ _ _ _ H Hr) as (s0 & nd & t & Ha & H0 & R).
+  destruct (access_lax _ _ _ _ _ k nk H Ha E) as (nk0 & E0 & Hp & Hc & Hl).
+  destruct (relabels_lax _ s0 s' k nk0 H0 R E0) as (E' & _ & L).
+  exists (ren_node (ren1 old new) nk0). split; [exact E'|]. rewrite L, Hl. cbn [ren_node parent children].
+  rewrite Hp, Hc. auto.
+Qed.
+
+(* the node formerly called old: found under new, parent and children unchanged *)
+Theorem rename_lax_old s new old s' nk :
+  wf s -> rename s new old = Some s' -> aget old (nodes s) = Some nk ->
+  exists nk', aget new (nodes s') = Some nk' /\ parent nk' = parent nk /\ children nk' = children nk /\
+              lax s' new nk' = lax s old nk.
+Proof.
+  intros H Hr E. destruct (rename_lax _ _ _ _ _ _ H Hr E) as (nk' & E' & Hp & Hc & Hl).
+  rewrite ren1_same in E', Hl. exists nk'. split; [exact E'|]. split; [|split; [|exact Hl]].
+  - rewrite Hp. destruct (parent nk) as [q|] eqn:Eq; [|reflexivity]. cbn. rewrite ren1_other; [reflexivity|].
+    intros ->. apply (wf_not_self_parent s old nk H E Eq).
+  - rewrite Hc. apply map_ren1_not_in. apply (wf_not_self_child s old nk H E).
+Qed.
+
+(* every other node keeps its key; old is replaced by new in its parent and children *)
+Theorem rename_lax_other s new old s' k nk :
+  wf s -> rename s new old = Some s' -> k <> old -> aget k (nodes s) = Some nk ->
+  exists nk', aget k (nodes s') = Some nk' /\
+              parent nk' = option_map (fun x => if Nat.eqb x old then new else x) (parent nk) /\
+              children nk' = map (fun x => if Nat.eqb x old then new else x) (children nk) /\
+              children nk' = replace_first old new (children nk) /\
+              lax s' k nk' = lax s k nk.
+Proof.
+  intros H Hr Hne E. destruct (rename_lax _ _ _ _ _ _ H Hr E) as (nk' & E' & Hp & Hc & Hl).
+  rewrite (ren1_other old new k Hne) in E', Hl. exists nk'. repeat split; auto.
+  rewrite Hc. symmetry. apply replace_first_map. apply (ni_chnd _ _ _ (wf_node s H k nk E)).
+Qed.
+
+(* the old identifier disappears (unless it is reused) *)
+Theorem rename_old_gone s new old s' :
+  wf s -> rename s new old = Some s' -> old <> new -> aget old (nodes s') = None /\ aget old (tensors s') = None.
+Proof.
+  intros H Hr Hne. destruct (rename_relabels _ _ _ _ H Hr) as (s0 & nd & t & Ha & H0 & R). split.
+  - apply aget_None. intros Hin. destruct (rl_n2 _ _ _ R old Hin) as (k & Ek & Hk).
+    unfold ren1 in Ek. destruct (Nat.eqb_spec k old); congruence.
+  - apply aget_None. intros Hin. destruct (rl_t2 _ _ _ R old Hin) as (k & Ek & Hk).
+    unfold ren1 in Ek. destruct (Nat.eqb_spec k old); congruence.
+Qed.
+
+(* ================================================================================================ *)
+(* ---- 3. insert_identity ------------------------------------------------------------------------- *)
+(* ================================================================================================ *)
+Definition ii_node (p c : id) (d : nat) : node := {| parent := Some p; children := [c]; perm := [0; 1]; shape := [d; d] |}.
+
+Lemma insert_identity_inv s c p new s' :
+  insert_identity s c p new = Some s' ->
+  exists cn pn ct pn',
+    aget c (nodes s) = Some cn /\ aget p (nodes s) = Some pn /\ aget c (tensors s) = Some ct /\
+    parent cn = Some p /\ In c (children pn) /\ aget new (nodes s) = None /\
+    replace_neighbour pn c new = Some pn' /\
+    let j := nth 0 (perm cn) 0 in
+    let cw := nth j (axes ct) 0 in
+    let w := next_wire s in
+    let d := wdim s cw in
+    nodes s' = aset new (ii_node p c d) (aset p pn' (aset c (with_parent cn (Some new)) (nodes s))) /\
+    tensors s' = aset new {| axes := [cw; w]; atoms := [next_atom s]; bnd := [] |}
+                   (aset c {| axes := set_nth j w (axes ct); atoms := atoms ct; bnd := bnd ct |} (tensors s)) /\
+    root s' = root s /\ dims s' = dims s ++ [(w, d)] /\ next_wire s' = S w /\ next_atom s' = S (next_atom s).
+Proof.
+  unfold insert_identity.
+  destruct (aget c (nodes s)) as [cn|] eqn:Ec; [|discriminate].
+  destruct (aget p (nodes s)) as [pn|] eqn:Ep; [|discriminate].
+  destruct (aget c (tensors s)) as [ct|] eqn:Et; [|discriminate].
+  destruct (parent cn) as [q|] eqn:Eq; cbn [negb]; [|discriminate].
+  destruct (Nat.eqb_spec q p) as [->|Hne]; cbn [negb]; [|discriminate].
+  destruct (memb c (children pn)) eqn:Hm; cbn [negb]; [|discriminate].
+  destruct (amem new (nodes s)) eqn:Hnew; [discriminate|].
+  unfold replace_neighbour at 1. rewrite Eq, Nat.eqb_refl.
+  destruct (replace_neighbour pn c new) as [pn'|] eqn:Epn'; [|discriminate].
+  cbn [fresh_wires fresh_atom hd].
+  set (d := wdim s (nth (nth 0 (perm cn) 0) (axes ct) 0)).
+  change (open_leg_to_parent (new_node [d; d]) p 0)
+    with (Some {| parent := Some p; children := []; perm := [0; 1]; shape := [d; d] |}).
+  cbv iota beta.
+  change (open_leg_to_child {| parent := Some p; children := []; perm := [0; 1]; shape := [d; d] |} c 1)
+    with (Some (ii_node p c d)).
+  cbv iota beta. intros [= <-].
+  exists cn, pn, ct, pn'. apply memb_In in Hm. apply amem_false in Hnew.
+  cbn zeta. repeat split; assumption.
+Qed.
+
+(* ---- set_nth ----------------------------------------------------------------------------------- *)
+Section SetNth.
+  Context {A : Type}.
+  Implicit Types (l : list A) (x d : A).
+
+  Lemma set_nth_length j x l : length (set_nth j x l) = length l.
+  Proof. revert j. induction l as [|y t IH]; intros [|j]; cbn; auto. Qed.
+
+  Lemma nth_set_nth_same j x l d : j < length l -> nth j (set_nth j x l) d = x.
+  Proof. revert j. induction l as [|y t IH]; intros [|j] H; cbn in *; try lia; auto. apply IH. lia. Qed.
+
+  Lemma nth_set_nth_other i j x l d : i <> j -> nth i (set_nth j x l) d = nth i l d.
+  Proof.
+    revert i j. induction l as [|y t IH]; intros [|i] [|j] H; cbn; try reflexivity; try congruence.
+    apply IH. congruence.
+  Qed.
+
+  Lemma In_set_nth j x l y : In y (set_nth j x l) -> y = x \/ In y l.
+  Proof.
+    revert j. induction l as [|z t IH]; intros [|j]; cbn; try tauto.
+    - intros [<-|H]; auto.
+    - intros [<-|H]; auto. destruct (IH j H); auto.
+  Qed.
+
+  Lemma set_nth_nth j l d : set_nth j (nth j l d) l = l.
+  Proof. revert j. induction l as [|z t IH]; intros [|j]; cbn; try reflexivity. f_equal. apply IH. Qed.
+
+  Lemma set_nth_perm j x l d : j < length l -> Permutation (nth j l d :: set_nth j x l) (x :: l).
+  Proof.
+    revert j. induction l as [|z t IH]; intros [|j] H; cbn in *; try lia.
+    - apply perm_swap.
+    - rewrite perm_swap. rewrite (IH j) by lia. apply perm_swap.
+  Qed.
+
+  Lemma permute_set_nth d p j x l :
+    j < length l -> permute d p (set_nth j x l) = map (fun i => if Nat.eqb i j then x else nth i l d) p.
+  Proof.
+    intros Hj. unfold permute. apply map_ext. intros i. destruct (Nat.eqb_spec i j) as [->|Hne].
+    - apply nth_set_nth_same. exact Hj.
+    - apply nth_set_nth_other. exact Hne.
+  Qed.
+End SetNth.
+
+Lemma map_set_nth {A B} (f : A -> B) j x (l : list A) : map f (set_nth j x l) = set_nth j (f x) (map f l).
+Proof. revert j. induction l as [|z t IH]; intros [|j]; cbn; try reflexivity. f_equal. apply IH. Qed.
+
+(* a permutation starting with j, applied after overwriting position j *)
+Lemma permute_set_nth_head (j : nat) (pm : list nat) (x : nat) (l : list nat) :
+  j < length l -> ~ In j pm -> permute 0 (j :: pm) (set_nth j x l) = x :: permute 0 pm l.
+Proof.
+  intros Hj Hni. rewrite (permute_set_nth 0) by exact Hj. cbn [map]. rewrite Nat.eqb_refl. f_equal.
+  unfold permute. apply map_ext_in. intros i Hi. destruct (Nat.eqb_spec i j) as [->|]; [contradiction|reflexivity].
+Qed.
+
+Lemma index_of_replace_first_new c new l : ~ In new l -> index_of new (replace_first c new l) = index_of c l.
+Proof.
+  induction l as [|z t IH]; cbn; [reflexivity|]. intros Hni.
+  destruct (Nat.eqb_spec c z) as [->|Hne]; cbn.
+  - rewrite Nat.eqb_refl. reflexivity.
+  - destruct (Nat.eqb_spec new z) as [->|_]; [exfalso; apply Hni; left; reflexivity|].
+    rewrite IH; [reflexivity|]. intros Hin. apply Hni. right. exact Hin.
+Qed.
+
+Lemma index_of_replace_first_other c new l k : k <> c -> k <> new -> index_of k (replace_first c new l) = index_of k l.
+Proof.
+  intros Hc Hn. induction l as [|z t IH]; cbn; [reflexivity|].
+  destruct (Nat.eqb_spec c z) as [->|Hne]; cbn.
+  - destruct (Nat.eqb_spec k new); [congruence|]. destruct (Nat.eqb_spec k z); [congruence|]. reflexivity.
+  - rewrite IH. reflexivity.
+Qed.
+
+Lemma NoDup_replace_first c new l : NoDup l -> ~ In new l -> NoDup (replace_first c new l).
+Proof.
+  induction l as [|z t IH]; cbn; intros Hnd Hni; [constructor|]. inversion Hnd as [|? ? Hz Hnd']; subst.
+  destruct (Nat.eqb_spec c z) as [->|Hne].
+  - constructor; [|exact Hnd']. intros Hin. apply Hni. right. exact Hin.
+  - constructor.
+    + intros Hin. apply In_replace_first in Hin. destruct Hin as [->|[Hin _]]; [apply Hni; left; reflexivity|contradiction].
+    + apply IH; [exact Hnd'|]. intros Hin. apply Hni. right. exact Hin.
+Qed.
+
+Lemma wdim_snoc s s' w d x :
+  dims s' = dims s ++ [(w, d)] -> aget w (dims s) = None ->
+  wdim s' x = if Nat.eqb x w then d else wdim s x.
+Proof.
+  intros Hd Hw. unfold wdim. rewrite Hd, aget_app. destruct (Nat.eqb_spec x w) as [->|Hne].
+  - rewrite Hw. cbn. rewrite Nat.eqb_refl. reflexivity.
+  - destruct (aget x (dims s)); [reflexivity|]. cbn. destruct (Nat.eqb_spec x w); [congruence|reflexivity].
 Qed.
